@@ -80,6 +80,7 @@ class Scene:
         self.env = env or {}
         self.assume = []
         self.inputs = []
+        self.quat_groups = []
         self.count = 0
         self.top = []
         self.sensors = []
@@ -110,11 +111,13 @@ class Scene:
                 Q = SymRot(np.tile(q, (m, 1)), False)
                 self.assume += SymRot(q, False).unit()
                 self.inputs += list(q.ravel())
+                self.quat_groups += [list(r) for r in q]
             else:
                 q = symarr(nm + "q", (m, 4))
                 Q = SymRot(q, False)
                 self.assume += Q.unit()
                 self.inputs += list(q.ravel())
+                self.quat_groups += [list(r) for r in q]
             o.P, o.Q = P, Q
             o.obj._position = P.copy()
             o.obj._orientation = SymRot(Q.q.copy(), False)
@@ -392,7 +395,10 @@ def c06_run(C):
         sc.patch_classes()
         try:
             res = {}
-            res["full"] = sc.call("B", squeeze=False)
+            try:
+                res["full"] = sc.call("B", squeeze=False)
+            except Exception as e:  # noqa
+                return sc, {"raised": e}
             res["sq"] = sc.call("B", squeeze=True)
             # element-by-element: each top-level source alone with each sensor alone
             singles = {}
@@ -420,6 +426,11 @@ def c06_run(C):
         def on_model(env):
             return {"key": f"C06|getBH_level2|{C.case['id']}", "replay": {"kind": "level2-c06", "scene": spec, "env": env}}
 
+        if "raised" in res:
+            C.obligations.append({"name": f"{tag}.returns", "status": "sat", "note": f"raised {type(res['raised']).__name__}: {res['raised']}"})
+            C.candidates.append({"key": f"C06|getBH_level2|raises|{C.case['id']}", "replay": {"kind": "level2-c06", "scene": spec, "env": {}}})
+            return
+
         pairs, err = compare_full(sc, res["full"], "B")
         if err:
             C.obligations.append({"name": f"{tag}.shape", "status": "sat", "note": err})
@@ -427,7 +438,7 @@ def c06_run(C):
             return
         C.obligations.append({"name": f"{tag}.shape", "status": "unsat", "witness": "sat", "note": f"shape {np.shape(res['full'])}"})
         viol = z3.Or(*[z3.Or(*[toz(g[c]) != toz(e[c]) for c in range(3)]) for _, g, e in pairs])
-        C.oblige(f"{tag}.elements==reference", assume, viol, on_model=on_model, inputs=sc.inputs, nice=False,
+        C.oblige(f"{tag}.elements==reference", assume, viol, on_model=on_model, inputs=sc.inputs, nice=False, quat_groups=sc.quat_groups,
                  sample=f"getBH_level2 squeeze=False: {len(pairs)} elements each equal q_k^-1 * q_s * F_s(q_s^-1 (q_k pix + p_k - p_s)) at the held path index")
         full = np.asarray(res["full"], dtype=object)
         # squeeze only removes length-1 axes
@@ -436,7 +447,7 @@ def c06_run(C):
             C.obligations.append({"name": f"{tag}.squeeze-shape", "status": "sat", "note": f"{sq.shape} vs {np.squeeze(full).shape}"})
             C.candidates.append({"key": f"C06|getBH_level2|squeeze|{C.case['id']}", "replay": {"kind": "level2-c06", "scene": spec, "env": {}}})
         else:
-            C.oblige(f"{tag}.squeeze-values", assume, neq_any(sq, np.squeeze(full)), on_model=on_model, inputs=sc.inputs, nice=False)
+            C.oblige(f"{tag}.squeeze-values", assume, neq_any(sq, np.squeeze(full)), on_model=on_model, inputs=sc.inputs, nice=False, quat_groups=sc.quat_groups)
         M = sc.max_path()
         for (l, k), single in res["singles"].items():
             single = np.asarray(single, dtype=object)
@@ -446,12 +457,12 @@ def c06_run(C):
             for m in range(M):
                 mm = min(m, ms - 1)
                 terms.append(neq_any(full[l, m, k], single[0, mm, 0]))
-            C.oblige(f"{tag}.single[{l},{k}]", assume, z3.Or(*terms), on_model=on_model, inputs=sc.inputs, nice=False)
+            C.oblige(f"{tag}.single[{l},{k}]", assume, z3.Or(*terms), on_model=on_model, inputs=sc.inputs, nice=False, quat_groups=sc.quat_groups)
         if "perm" in res:
             perm, outp = res["perm"]
             outp = np.asarray(outp, dtype=object)
             C.oblige(f"{tag}.permuted-sources", assume, z3.Or(*[neq_any(outp[j], full[i]) for j, i in enumerate(perm)]),
-                     on_model=on_model, inputs=sc.inputs, nice=False)
+                     on_model=on_model, inputs=sc.inputs, nice=False, quat_groups=sc.quat_groups)
 
     paths = explore(run, max_paths=120 if C.tier == "quick" else 600, on_path=on_path)
     C.decisions += sum(len(p.decisions) for p in paths)
@@ -470,7 +481,10 @@ def _replay_c06(spec):
     sc = Scene(spec["scene"], symbolic=False, env=spec.get("env", {}))
     sc.patch_classes()
     try:
-        full = np.asarray(sc.call("B", squeeze=False), dtype=float)
+        try:
+            full = np.asarray(sc.call("B", squeeze=False), dtype=float)
+        except Exception as e:  # noqa
+            return True, f"valid call raised {type(e).__name__}: {str(e)[:200]}"
         pairs, err = compare_full(sc, full, "B")
         if err:
             return True, err
